@@ -191,7 +191,7 @@ Fixpoint to_database (c : col) (v : pyval) {struct c} : option pyval :=
   | CTime => match v with
              | PNone => Some PNone
              | PUtilTime ns => Some (PUtilTime ns)
-             | PInt ns => if ns <? NS_DAY then Some (PUtilTime ns) else None
+             | PInt ns => if (0 <=? ns) && (ns <? NS_DAY) then Some (PUtilTime ns) else None    (* util.Time(int): ValueError outside one day *)
              | PTimeOfDay us => Some (PUtilTime (us * 1000))
              | _ => None
              end
@@ -274,10 +274,10 @@ Definition scalar_value (rich : bool) (t : cqltype) (v : pyval) : option value :
       if rich && in_range 0 (2 ^ 32) (wall / US_DAY + EPOCH_OFFSET_DAYS) then Some (VDate (wall / US_DAY)) else None
   | TTime, PUtilTime ns => if in_i64 ns then Some (VTime ns) else None
   | TTime, PTimeOfDay us => if rich && in_i64 (us * 1000) then Some (VTime (us * 1000)) else None
-  | TTime, PInt ns => if rich && (ns <? NS_DAY) && in_i64 ns then Some (VTime ns) else None
+  | TTime, PInt ns => if rich && (0 <=? ns) && (ns <? NS_DAY) && in_i64 ns then Some (VTime ns) else None
   | TTimestamp, PInt ms => if in_i64 ms then Some (VTimestamp ms) else None
-  (* DateType.serialize(datetime): calendar.timegm(v.utctimetuple()) * 1e3 + microsecond / 1e3 -- intended
-     semantics = the exact millisecond instant; stated for whole-millisecond instants (see `valid`) *)
+  (* DateType.serialize(datetime): int(calendar.timegm(v.utctimetuple()) * 1e3 + microsecond / 1e3) -- intended
+     semantics = the exact instant in milliseconds truncated toward zero; the float expression meets it on `valid` *)
   | TTimestamp, PDatetime wall tz =>
       let ms := Z.quot (wall - tz_off tz wall) 1000 in
       if rich && in_i64 ms then Some (VTimestamp ms) else None
@@ -326,7 +326,9 @@ Definition denote := cql_value false.
 Definition prepared_value := cql_value true.
 
 (* ------------------------------------------------------------------ valid values per column *)
-Definition valid_float64 (m e : Z) : bool := (Z.abs m <? 2 ^ 53) && in_range (-1074) 972 e.
+(* a finite binary64: at most 53 significant bits, magnitude below 2^1024 (the mantissa may be given in lowest terms) *)
+Definition valid_float64 (m e : Z) : bool :=
+  (Z.abs m <? 2 ^ 53) && in_range (-1074) 1024 e && (Z.abs m * 2 ^ Z.max e 0 <? 2 ^ 1024).
 
 Definition valid_scalar (c : col) (v : pyval) : bool :=
   match c, v with
@@ -352,9 +354,12 @@ Definition valid_scalar (c : col) (v : pyval) : bool :=
   | CDate, PDatetime wall _ => in_range 0 (2 ^ 32) (wall / US_DAY + EPOCH_OFFSET_DAYS)
   | CTime, PUtilTime ns => in_i64 ns
   | CTime, PTimeOfDay us => in_i64 (us * 1000)
-  (* a datetime denoting a whole-millisecond instant (sub-millisecond digits: see C36_datetime_exact_ms) *)
+  (* any datetime whose instant is a whole millisecond, and any datetime at all (sub-millisecond digits included, which
+     both paths drop toward zero) within 2^44 ms of the epoch (years ~1413..2527), where the core driver's float expression
+     calendar.timegm(..) * 1e3 + microsecond / 1e3 is exact enough for int() to truncate the true value *)
   | CDateTime, PDatetime wall tz =>
-      ((wall - tz_off tz wall) mod 1000 =? 0) && in_i64 (Z.quot (wall - tz_off tz wall) 1000)
+      (((wall - tz_off tz wall) mod 1000 =? 0) || (Z.abs (Z.quot (wall - tz_off tz wall) 1000) <? 2 ^ 44)) &&
+      in_i64 (Z.quot (wall - tz_off tz wall) 1000)
   | CDateTime, PDate d => in_i64 (d * 86400000)
   | CDuration, PDuration _ _ _ => true
   | _, _ => false
